@@ -4,10 +4,10 @@ import json, os
 from lib import vlib
 
 
-def run_fn(chk, driver, module, cfg, extra_args=(), shards=None, max_findings_per_shard=12, timeout=3000):
+def run_fn(chk, driver, module, cfg, extra_args=(), shards=None, max_findings_per_shard=12, timeout=3000, consts=None, tag=""):
     """returns dict(events, states, findings=[(event dict, hwm text)], cases)"""
     chk.build_vh()
-    d = chk.sub("fn-" + driver)
+    d = chk.sub("fn-" + driver + tag)
     nsh = shards or vlib.NCPU
 
     def drive(i):
@@ -24,7 +24,7 @@ def run_fn(chk, driver, module, cfg, extra_args=(), shards=None, max_findings_pe
         lines = open(tp).read().splitlines(True)
         cur = tp
         while True:
-            r = chk.tlc_trace(module, cfg, cur, timeout=timeout)
+            r = chk.tlc_trace(module, cfg, cur, timeout=timeout, consts=consts)
             states += r.get("states", 0)
             if r["accepted"]:
                 break
